@@ -163,7 +163,7 @@ impl Inner {
             ) {
                 Ok(_) => Some(&*(parsed as *const String)),
                 Err(e) => {
-                    Arc::decrement_strong_count(parsed);
+                    Arc::decrement_strong_count(parsed as *const String);
                     Some(&*(e as *const String))
                 }
             }
